@@ -201,3 +201,18 @@ Print Assumptions C04_history.
 Print Assumptions C04_commands_at_default.
 Print Assumptions C04_configs_at_config_level.
 Print Assumptions C04_inert_needed.
+
+(* ---- processAcquirePriv is the source's: translated statement by statement on this run
+   (gen/decide.go -> GeneratedSkel.process_acquire_priv_code, interpreted by DecideLang.exec) ---- *)
+From Scrapli Require Import DecideLang GeneratedSkel Decide.
+
+(* for every privilege map, cached level, target and prompt: the translated function takes for the
+   current level the cached one if the prompt allows it, else the target if the prompt allows it,
+   else the first candidate; returns no-action / de-escalate / escalate-to-next exactly as the
+   model's [process_acquire]; and leaves d.CurrentPriv on the chosen level resp. the sentinel *)
+Theorem C04_process_acquire_is_source : forall net cached target prompt,
+  pa_interp net cached target prompt (pa_run (pa_tests_of net cached target prompt))
+  = process_acquire net cached target prompt.
+Proof. exact process_acquire_is_source. Qed.
+
+Print Assumptions C04_process_acquire_is_source.
